@@ -309,4 +309,20 @@ theorem color_dtype_rejects :
     ∀ dt ∈ [Gen.CDT.i16, .i64, .b], ∀ colour ∈ [true, false], Gen.colorCorrectionDtype dt true colour = .error .value := by
   decide
 
+/-! ## Round 6: `reset()` on long-lived balance objects -/
+
+/-- `reset()` forgets the whole history: whatever was fitted before (incl. a non-zero translation), the operations after the
+last reset act like on a fresh object. -/
+theorem reset_forgets_history [CommRing α] (pre post : List (BalOp α)) :
+    runOps (pre ++ [.reset] ++ post) = runOps post := by
+  simp only [runOps, List.foldl_append, List.foldl_cons, List.foldl_nil, balStep]
+
+/-- without resets the operations are the staged accumulation of `runCode`. -/
+theorem runOps_stages [CommRing α] (stages : List (Stage α)) : runOps (stages.map BalOp.stage) = runCode stages := by
+  simp only [runOps, runCode, List.foldl_map, balStep]
+
+/-- right after `reset()` the balance is the identity map on colours. -/
+theorem reset_is_identity [CommRing α] (pre : List (BalOp α)) (x : V3 α) : (runOps (pre ++ [.reset])).apply x = x := by
+  simp only [runOps, List.foldl_append, List.foldl_cons, List.foldl_nil, balStep, id_apply]
+
 end Darsia.C12
